@@ -4,8 +4,10 @@
     kind, all teeth numbers 10..559 (+600, 1000), every optional-data subset, both roles, torques of either sign.
     Proved here: the interpolation of the regenerated table (for EVERY real argument, hence every teeth number without bound); the
     tangential force through the regenerated quantity layer; the algebraic identities that turn the code's bending / contact /
-    virtual-teeth expressions into the documented ones.  The bending and contact formulas are NOT carried through the quantity
-    layer step by step (that part is _partial: correspondence + the documented-formula search oracle).  The three "is computable"
+    virtual-teeth expressions into the documented ones; the bending stress of spur and helical gears and the contact stress of a spur
+    gear carried through the quantity layer step by step (module, face width, moduli, force in ANY units: the result is a Stress
+    whose SI magnitude is the documented expression).  _partial: the worm wheel's bending stress and the helical gear's contact stress
+    (transverse pressure angle through atan) are decided by the correspondence + the documented-formula search oracle only.  The three "is computable"
     flags and the ValueError of a contact stress whose mate lacks data are in Keys.v / Gears.contact_stress (see C17). *)
 From Coq Require Import ZArith QArith Reals Lra String List Bool PrimFloat.
 From GP Require Import ArithDef FloatUtil UnitsCore PyUnits RealArith Spec UnitsR QOps QOpsR Relations Gears GearsR.
@@ -50,6 +52,27 @@ Theorem C09_virtual_teeth_identity : forall z cb ch : R, cb <> 0 -> ch <> 0 -> z
 Proof. exact virtual_teeth_identity. Qed.
 
 (** non-vacuity (binary64 instance): the Lewis factor at the knot 20 is the tabulated 0.320, and at 21.5 it is between the neighbours *)
+(** bending stress of a spur or helical gear, whatever the units of module, face width and force:  F_t / (m b) / Y  in Pa,
+    Y the Lewis factor ([lewis_factor], interpolated as proved above) *)
+Theorem C09_bending_stress : forall (g : @gear RA) r mate (ft S m fw : qty RA) Y F sm sb,
+  g_kind g <> EWheel -> lewis_factor g = Ok Y ->
+  g_module g = Some m -> g_face g = Some fw -> qk m = KLength -> qk fw = KLength -> qk ft = KForce ->
+  si m = Ok sm -> si fw = Ok sb -> si ft = Ok F ->
+  bending_stress g r mate ft = Ok S ->
+  sm * sb <> 0 /\ Y <> 0 /\ qk S = KStress /\ si S = Ok (F / (sm * sb) / Y).
+Proof. exact bending_stress_doc. Qed.
+(** contact stress of a spur gear (pressure angle 20 deg) against a spur or helical mate, whatever the units: with [C09_contact_identity]
+    this is the documented  0.262922 sqrt( 4 F_t/(b cos a sin a) (1/d1 + 1/d2) E1 E2/(E1+E2) ) *)
+Theorem C09_contact_stress_spur : forall (g mt : @gear RA) r (ft S m1 m2 fw e1 e2 : qty RA) F sm1 sm2 sb E1 E2,
+  g_kind g = ESpur -> (g_kind mt = ESpur \/ g_kind mt = EHelical) -> r <> None ->
+  g_module g = Some m1 -> g_module mt = Some m2 -> g_face g = Some fw -> g_emod g = Some e1 -> g_emod mt = Some e2 ->
+  qk m1 = KLength -> qk m2 = KLength -> qk fw = KLength -> qk e1 = KStress -> qk e2 = KStress -> qk ft = KForce ->
+  si m1 = Ok sm1 -> si m2 = Ok sm2 -> si fw = Ok sb -> si e1 = Ok E1 -> si e2 = Ok E2 -> si ft = Ok F ->
+  contact_stress g r (Some mt) ft = Ok S ->
+  let d1 := IZR (g_n g) * sm1 in let d2 := IZR (g_n mt) * sm2 in let al := 20 * (PI / 180) in
+  qk S = KStress /\
+  si S = Ok (131461 / 500000 * R_sqrt.sqrt ((2 * E1 * (E2 / (E1 + E2))) * (F / cos al / (sb * (sin al / 2 * d1 * (d2 / (d1 + d2))))))).
+Proof. exact contact_stress_spur_doc. Qed.
 Example C09_nonvacuous :
   PrimFloat.eqb (@lewis_interp (FA []) (@lewis_table (FA [])) 20%float) 0x1.47ae147ae147bp-2%float
   && PrimFloat.ltb 0x1.4cccccccccccdp-2%float (@lewis_interp (FA []) (@lewis_table (FA [])) 0x1.58p+4%float)
@@ -59,3 +82,4 @@ Proof. vm_compute. reflexivity. Qed.
 Print Assumptions C09_lewis_on_chord.
 Print Assumptions C09_tangential_force.
 Print Assumptions C09_table_increasing.
+Print Assumptions C09_contact_stress_spur.
